@@ -367,7 +367,7 @@ class Gen:
                       'map', 'reduce', 'partition', 'interleave', 'interpose', 'range', 'distinct', 'frequencies', 'merge',
                       'zipcoll', 'min', 'max', 'min-of', 'max-of', 'sum', 'product', 'reverse', 'reverse!', 'flatten',
                       'take', 'drop', 'partition', 'range', 'find', 'index-of', 'reduce2', 'map3',
-                      'keep', 'mapcat', 'count2', 'group-by', 'interpose', 'interleave', 'frequencies', 'mapvar', 'mapvar', 'merge-into'])
+                      'keep', 'mapcat', 'count2', 'group-by', 'interpose', 'interleave', 'frequencies', 'mapvar', 'mapvar', 'merge-into', 'someall', 'someall'])
         kind = r.choice(['(', '['])
         if f == 'find':
             return (f, [F(r.choice(['even', 'odd', 'pos', 'neg?', 'lt3', 'true', 'false'])), (kind, self.ints())])
@@ -377,10 +377,12 @@ class Gen:
             if r.chance(1, 2):
                 return (f, [F(r.choice(one)), (kind, self.ints(r.below(8), -3, 9))])
             return (f, [F(r.choice(two)), (kind, self.ints(r.below(7), -3, 9)), (r.choice(['(', '[']), self.ints(r.below(7), -3, 9))])
-        if f == 'mapvar':
+        if f in ('mapvar', 'someall'):
             # map-n 2 / map-n 3 / the general branch of map-template (>= 4 extra sequences), every aggregator
-            g = r.choice(['map', 'mapcat', 'keep', 'count'])
-            name = r.choice({'map': ['vsum', 'vlast'], 'mapcat': ['vtup', 'vrev'], 'keep': ['vsumpos', 'vsum'], 'count': ['vasc', 'vtrue']}[g])
+            g = r.choice(['map', 'mapcat', 'keep', 'count', 'some', 'all']) if f == 'mapvar' else r.choice(['some', 'all'])
+            vv = ['vfz', 'vfz', 'vsumpos', 'vasc', 'vsum', 'vtrue']
+            name = r.choice({'map': ['vsum', 'vlast'], 'mapcat': ['vtup', 'vrev'], 'keep': ['vsumpos', 'vsum'], 'count': ['vasc', 'vtrue'],
+                             'some': vv, 'all': vv}[g])
             nseq = r.choice([1, 2, 3, 3, 4, 4, 5, 5, 6, 7])
             base = r.below(6)
             seqs = [(r.choice(['(', '[']), self.ints(max(0, base + r.choice([0, 0, 0, 1, 2, -1])), -3, 9)) for _ in range(nseq)]
